@@ -131,7 +131,16 @@ func init() {
 		nest("{start:x,end:null}", m15, func(x any) any { return map[string]any{"start": x, "end": nil} }),
 		nest("[{start:x,end:3}]", i1, func(x any) any { return []any{map[string]any{"start": x, "end": 3}} }),
 		nest("[{start:0,end:x}]", half, func(x any) any { return []any{map[string]any{"start": 0, "end": x}} }),
+		intFam(bigOf("18446744073709551616").String()), intFam(new(big.Int).Exp(big.NewInt(10), big.NewInt(23), nil).String()),
 		plain(nil), plain(true), plain("abc"), plain("a,b"), plain([]any{}), plain(map[string]any{}), plain([]any{"a", "b"}), plain("2015-03-05T23:51:47Z"),
+	}
+	// integers at the edge of the double range (int <-> json.Number only: the
+	// property does not make them interchangeable with float64)
+	pow := func(b, e int64) *big.Int { return new(big.Int).Exp(big.NewInt(b), big.NewInt(e), nil) }
+	maxF := new(big.Int).Sub(pow(2, 1024), pow(2, 971))
+	for _, b := range []*big.Int{pow(2, 1023), new(big.Int).Add(pow(2, 1023), big.NewInt(1)), pow(10, 308), maxF, new(big.Int).Add(maxF, big.NewInt(1)),
+		new(big.Int).Sub(pow(2, 1024), big.NewInt(1)), pow(2, 1024), pow(10, 309), new(big.Int).Neg(pow(2, 1023)), new(big.Int).Neg(pow(10, 308)), new(big.Int).Neg(pow(2, 1024))} {
+		repU = append(repU, intFam(b.String()))
 	}
 }
 
@@ -544,7 +553,9 @@ func genNumPair(t *rapid.T, label string) (any, any) {
 	switch rapid.IntRange(0, 5).Draw(t, label+"numkind") {
 	case 0, 1: // integers of any size
 		var b *big.Int
-		switch rapid.IntRange(0, 3).Draw(t, label+"intkind") {
+		switch rapid.IntRange(0, 4).Draw(t, label+"intkind") {
+		case 4:
+			b = new(big.Int).Set(rapid.SampledFrom(boundaryInts()).Draw(t, label+"edge"))
 		case 0:
 			b = big.NewInt(int64(rapid.IntRange(-5, 12).Draw(t, label+"small")))
 		case 1:
